@@ -259,7 +259,9 @@ fn do_stop(l: &mut Live, i: usize, via_control: bool, shared: &SharedGlobals, ob
     } else if let Some(h) = l.handle.as_ref() {
         h.stop();
     }
-    let h = l.handle.take().expect("handle");
+    let Some(h) = l.handle.take() else {
+        return Ok(()); // an earlier join on this resource timed out and was reported
+    };
     let (h, ok) = join_with_timeout(h)?;
     l.handle = Some(h);
     l.stopped = true;
